@@ -46,4 +46,29 @@ BeyondEnd(t, ev) == IF t.strand = 1 THEN FootHi(ev) > TxLast(t) ELSE FootLo(ev) 
 InGene(g, ev) == FootLo(ev) >= g.start /\ FootHi(ev) < g.end
 StrictlyInside(t, ev) ==
   LET lo == t.exons[1][1]  hi == t.exons[Len(t.exons)][2] IN ev.s > lo + 1 /\ ev.e < hi - 1
+
+(***************************************************************************)
+(* CIRCexplorer: a row reports genomic blocks <<a, b>> (0-based half-open,  *)
+(* ascending).  The circRNA consists of those blocks; in gene coordinates   *)
+(* a block is the strand-corrected interval.                                *)
+(***************************************************************************)
+BlockInGene(g, blk) ==
+  IF g.strand = 1 THEN <<G2Gene(g, blk[1]), G2Gene(g, blk[2] - 1) + 1>>
+  ELSE <<G2Gene(g, blk[2] - 1), G2Gene(g, blk[1]) + 1>>
+CircFragmentsExpected(g, blocks) == {BlockInGene(g, blocks[k]) : k \in 1..Len(blocks)}
+(* the circular sequence: the genomic blocks in transcript orientation           *)
+RECURSIVE ConcatBlocks(_, _, _)
+ConcatBlocks(chrom, blocks, k) == IF k > Len(blocks) THEN <<>> ELSE Slice(chrom, blocks[k][1], blocks[k][2]) \o ConcatBlocks(chrom, blocks, k + 1)
+CircSeqExpected(chrom, g, blocks) ==
+  LET s == ConcatBlocks(chrom, blocks, 1) IN IF g.strand = 1 THEN s ELSE RevComp(s)
+BackspliceExpected(g, blocks) == BlockInGene(g, <<blocks[1][1], blocks[Len(blocks)][2]>>)
+
+IsExonOf(t, blk) == \E k \in 1..Len(t.exons) : t.exons[k][1] = blk[1] /\ t.exons[k][2] = blk[2]
+(* introns of t in genomic coordinates                                            *)
+Introns(t) == {<<t.exons[k][2], t.exons[k + 1][1]>> : k \in 1..(Len(t.exons) - 1)}
+IsIntronOf(t, blk) == blk \in Introns(t)
+(* offsets of a reported intron block relative to the annotated intron, in         *)
+(* transcript orientation: <<start offset, end offset>>                            *)
+IntronOffsets(t, blk, iv) ==
+  IF t.strand = 1 THEN <<blk[1] - iv[1], blk[2] - iv[2]>> ELSE <<iv[2] - blk[2], iv[1] - blk[1]>>
 =============================================================================
